@@ -221,6 +221,7 @@ func (it *Interp) goStmt(fr *Frame, g *ssa.Go) {
 			}()
 			savedDepth := it.depth
 			it.depth = 0
+			it.stack = nil
 			if recv != nil {
 				it.invoke(recv, &g.Call, args)
 			} else {
